@@ -285,7 +285,7 @@ func (c20) Run(c *fw.Ctx) {
 			}
 		}
 		if !ok {
-			c.Inconclusive("no stable second for generate")
+			c.Count("skipped_no_stable_second", 1)
 			return
 		}
 		det := fw.J{"layout": l, "instant": res.T0, "max": max, "fill": fill, "driver": "cli", "run": res.brief()}
